@@ -217,6 +217,8 @@ def _build(nfa: NFA, items, nxt: int, pattern: str, ascii_=False) -> int:
                 # the ASCII word boundary: é, ٣ and the like do not count as word characters
                 nfa.sets.append(AWORD)
                 nfa.asr[s] = ("ab" if av is C.AT_BOUNDARY else "aB", cur)
+            elif av is C.AT_END_STRING:
+                nfa.asr[s] = ("eos", cur)          # \Z: only at the very end of the text
             elif av is C.AT_BOUNDARY:
                 nfa.asr[s] = ("b", cur)
             elif av is C.AT_NON_BOUNDARY:
@@ -366,6 +368,8 @@ class Matcher:
             return is_word(prev) != is_word(nxt)
         if kind == "B":
             return is_word(prev) == is_word(nxt)
+        if kind == "eos":
+            return nxt is None or nxt == EOF
         if kind == "ab":
             return is_aword(prev) != is_aword(nxt)
         if kind == "aB":
